@@ -101,6 +101,24 @@ def rng_digest():
     return digest([st[0], st[1], st[2], st[3], st[4]])
 
 
+def ambient_digest():
+    """Interpreter-wide state a library call has no business touching: the stdlib `random` generator, the working
+    directory, the environment, sys.path, recursion / int-str limits, the warning filters, numpy's error and print
+    settings, the decimal context, sys.stdout / stderr.  (numpy's global RNG has its own digest: two calls may use it.)"""
+    import decimal
+    import os
+    import random as _random
+    import sys
+    import warnings
+    st = _random.getstate()
+    parts = [st[0], hashlib.blake2b(repr(st[1]).encode(), digest_size=8).hexdigest(), st[2],
+             os.getcwd(), sorted(os.environ.items()), list(sys.path), sys.getrecursionlimit(),
+             len(warnings.filters), repr(warnings.filters[:3]), sorted(np.geterr().items()),
+             sorted((k, repr(v)) for k, v in np.get_printoptions().items()), repr(decimal.getcontext()),
+             id(sys.stdout), id(sys.stderr), sys.getswitchinterval()]
+    return hashlib.blake2b(repr(parts).encode(), digest_size=12).hexdigest()
+
+
 # ---------------------------------------------------------------------------------------------------------------------
 # audit hook: side effects raised while a guarded call is on the stack
 
